@@ -121,3 +121,22 @@ Theorem generated_size_filter_tables_wrapper :
   ltac:(let t := type of size_filter_tables_rows_end_to_end_flat in exact t).
 Proof. exact size_filter_tables_rows_end_to_end_flat. Qed.
 Print Assumptions generated_size_filter_tables_wrapper.
+
+(* ==== the property stated DIRECTLY ABOUT THE CODE: the function regenerated from the Python source on this
+   run (Gen/WrapperGen.v, Gen/FilterWrapperGen.v, Gen/MatcherGen.v), applied to any well-formed frames,
+   returns a frame with header header_spec whose rows, read at key level (kview: left key, right key,
+   score), satisfy complete_spec /\ sound_spec /\ missing_spec /\ empty_spec (Spec/JoinSpec.v, MetaSpec.v)
+   -- composition of `generated code refines api_join` with `api_join satisfies the specs` *)
+From SSJ Require Import CodeLevelBase CodeLevelJoins CodeLevelJoins2 CodeLevelFilters CodeLevelMatcher CodeLevelTight.
+Theorem C08_code_jaccard :
+  ltac:(let t := type of C01_C02_code_jaccard_tight in exact t).
+Proof. exact C01_C02_code_jaccard_tight. Qed.
+Print Assumptions C08_code_jaccard.
+Theorem C08_code_edit_distance :
+  ltac:(let t := type of C03_code_edit_distance_exact in exact t).
+Proof. exact C03_code_edit_distance_exact. Qed.
+Print Assumptions C08_code_edit_distance.
+Theorem C08_code_filter_tables :
+  ltac:(let t := type of C04_code_filter_tables_jcd in exact t).
+Proof. exact C04_code_filter_tables_jcd. Qed.
+Print Assumptions C08_code_filter_tables.
